@@ -92,4 +92,78 @@ theorem splice_decomp (A B C : List Run) (ds de : Nat) (s e : Option Run) (hds :
   simp only []
   exact drain_eq _ _ C _ de rfl c2.1 c2.2
 
+/-! ### the indices computed by the code, as lengths of pieces -/
+
+theorem lowerBound_split (a : Nat) (l : List Run) :
+    ∃ P S, l = P ++ S ∧ lowerBound a l = P.length ∧ (∀ r ∈ P, r.1 < a) ∧
+      (∀ r, S.head? = some r → a ≤ r.1) := by
+  induction l with
+  | nil => exact ⟨[], [], rfl, rfl, by simp, by simp⟩
+  | cons r l ih =>
+    obtain ⟨o, c⟩ := r
+    by_cases h : o < a
+    · obtain ⟨P, S, h1, h2, h3, h4⟩ := ih
+      refine ⟨(o, c) :: P, S, by simp [h1], by simp [lowerBound, h, h2], ?_, h4⟩
+      intro r hr
+      simp at hr
+      rcases hr with hr | hr
+      · subst hr; exact h
+      · exact h3 r hr
+    · refine ⟨[], (o, c) :: l, rfl, by simp [lowerBound, h], by simp, ?_⟩
+      intro r hr
+      simp at hr
+      subst hr
+      simp; omega
+
+theorem skipSame_split (col : Colour) (T : List Run) (i : Nat) :
+    ∃ T1 T2, T = T1 ++ T2 ∧ skipSame col T i = i + T1.length ∧ (∀ r ∈ T1, r.2 = col) := by
+  induction T generalizing i with
+  | nil => exact ⟨[], [], rfl, rfl, by simp⟩
+  | cons r T ih =>
+    obtain ⟨o, c⟩ := r
+    by_cases h : c = col
+    · obtain ⟨T1, T2, h1, h2, h3⟩ := ih (i + 1)
+      refine ⟨(o, c) :: T1, T2, by simp [h1], by simp [skipSame, h, h2]; omega, ?_⟩
+      intro r hr
+      simp at hr
+      rcases hr with hr | hr
+      · subst hr; exact h
+      · exact h3 r hr
+    · exact ⟨[], (o, c) :: T, rfl, by simp [skipSame, h], by simp⟩
+
+theorem sameBefore_split (col : Colour) (l : List Run) (i : Nat) (hi : i ≤ l.length) :
+    ∃ P1 P2 P3, l = P1 ++ P2 ++ P3 ∧ sameBefore l col i = P1.length ∧ P1.length + P2.length = i ∧
+      (∀ r ∈ P2, r.2 = col) := by
+  induction i with
+  | zero => exact ⟨[], [], l, rfl, rfl, rfl, by simp⟩
+  | succ i ih =>
+    obtain ⟨P1, P2, P3, h1, h2, h3, h4⟩ := ih (by omega)
+    have hP3 : P3 ≠ [] := by
+      intro h; subst h; subst h1; simp at hi; omega
+    obtain ⟨⟨o, c⟩, P3', rfl⟩ := List.exists_cons_of_ne_nil hP3
+    have hget : l[i]? = some (o, c) := by
+      subst h1; rw [List.getElem?_append_right (by simp; omega)]; simp [← h3]
+    by_cases h : c = col
+    · refine ⟨P1, P2 ++ [(o, c)], P3', by simp [h1], ?_, by simp; omega, ?_⟩
+      · simp only [sameBefore, hget, h, if_true]; exact h2
+      · intro r hr
+        simp at hr
+        rcases hr with hr | hr
+        · exact h4 r hr
+        · subst hr; exact h
+    · refine ⟨P1 ++ P2 ++ [(o, c)], [], P3', by simp [h1], ?_, by simp; omega, by simp⟩
+      simp only [sameBefore, hget, h, if_false]; simp; omega
+
+theorem ackScan_mid (b size : Nat) (all M T : List Run) (de : Nat) (pre : Colour)
+    (hM : ∀ r ∈ M, r.1 < b ∧ r.2 ≠ .pending) :
+    ackScan b size all (M ++ T) de pre = ackScan b size all T (de + M.length) (lastCol M pre) := by
+  induction M generalizing de pre with
+  | nil => simp [lastCol_nil]
+  | cons r M ih =>
+    obtain ⟨o, c⟩ := r
+    have h := hM (o, c) (by simp)
+    simp only [List.cons_append, ackScan, h.1, h.2, if_true, if_false, lastCol_cons]
+    rw [ih _ _ (fun r hr => hM r (by simp [hr]))]
+    simp; congr 1; omega
+
 end GmQuic.BufMap
